@@ -58,8 +58,7 @@ def utility_sets(inst, K: int, level: str = "small") -> List[List[dict]]:
         [u("HP", "Hot", top, top), u("MP", "Hot", mid_hi + dstep / 2, mid_hi + dstep / 2, dt=dstep / 2),
          u("CW", "Cold", bot, bot), u("TW", "Cold", mid_lo - dstep / 2, mid_lo - dstep / 2, dt=dstep / 2)],
     ]
-    if level == "large":
-        sets += [
+    large = [
             # an inside-range level only (defaults must be added to close the balance)
             [u("MP", "Hot", mid_hi, mid_hi), u("TW", "Cold", mid_lo, mid_lo)],
             # 'Both' type intermediate level
@@ -71,4 +70,15 @@ def utility_sets(inst, K: int, level: str = "small") -> List[List[dict]]:
             [u("HP", "Hot", top, top), u("MPg", "Hot", mid_hi + step, mid_hi),
              u("CW", "Cold", bot, bot), u("TWg", "Cold", mid_lo - step, mid_lo)],
         ]
-    return sets
+    # levels NEAR the ends of the process range (closer than their own contribution): the supplied level cannot reach the
+    # extreme process temperature on the shifted scale, so a default utility has to be added for the sums to close
+    edge = [
+        [u("HP", "Hot", top, top), u("CWnear", "Cold", T[0] - dstep / 4, T[0] - dstep / 4, dt=dstep / 2)],
+        [u("HPnear", "Hot", T[-1] + dstep / 4, T[-1] + dstep / 4, dt=dstep / 2), u("CW", "Cold", bot, bot)],
+        # exactly reaching: shifted range ends on the extreme process temperature
+        [u("HPexact", "Hot", T[-1] + dstep + 0.1, T[-1] + dstep + 0.1, dt=dstep / 2), u("CWexact", "Cold", T[0] - dstep - 0.1, T[0] - dstep - 0.1, dt=dstep / 2)],
+    ]
+    if level == "large":
+        return sets + large + edge       # indices 0-3 small, 4-7 large, 8-10 edge
+    return sets + edge                   # indices 0-3 small, 4-6 edge
+
